@@ -18,6 +18,7 @@ type Gen struct {
 	maxFrame int
 	npcall   int
 	maxPCall int
+	rewards  bool // this tree may call delegationRewards (trigger of finding C09-1)
 }
 
 func NewGen(r *lib.Rand, w *World, thorough bool) *Gen {
@@ -101,6 +102,10 @@ func (g *Gen) fillFrame(f *Node, depth, ctx int, static bool) {
 				ck = lib.CallKind(1 + g.r.Intn(3))
 			}
 			mk := MarkerKind(g.pickKind([]int{38, 20, 16, 10, 7, 9}))
+			if g.rewards && g.r.Chance(35) {
+				mk = MkRewards
+				ck = lib.CallKind(g.r.Intn(4))
+			}
 			m := &Marker{ID: g.id(), Kind: mk, Ctx: ctx}
 			if mk == MkDelegate || mk == MkXChain {
 				m.Bit = g.nextBit
